@@ -484,6 +484,12 @@ class Interp:
     def equal(self, a, b, node=None):
         if not _has_abs(a) and not _has_abs(b):
             return a == b
+        for x, y in ((a, b), (b, a)):
+            if hasattr(x, "a_eq"):
+                r = x.a_eq(self, y)
+                if r is None:
+                    return self.fork("eq: %s" % (short(node) if node is not None else "?"))
+                return r
         if isinstance(a, Ch) and isinstance(b, str):
             a, b = b, a
         if isinstance(a, str) and isinstance(b, Ch):
@@ -514,6 +520,14 @@ class Interp:
                         res = False
                         break
                 return res
+            if isinstance(b, str) or (isinstance(b, AbsStr) and b.is_concrete()):
+                m = self._match_str(self.norm_str(_as_absstr(a)), b if isinstance(b, str) else b.concrete())
+                if m is not None:
+                    return m
+            if isinstance(a, str) or (isinstance(a, AbsStr) and a.is_concrete()):
+                m = self._match_str(self.norm_str(_as_absstr(b)), a if isinstance(a, str) else a.concrete())
+                if m is not None:
+                    return m
             raise CannotDecide("string equality with runs: %r == %r" % (a, b))
         if type(a) in (int, bool, float, type(None)) and isinstance(b, (Ch, AbsStr)):
             return False
@@ -553,10 +567,19 @@ class Interp:
             if isinstance(item, Opaque):
                 return self.fork("in: %s" % short(node))
             if isinstance(item, AbsStr):
+                item = self.norm_str(item)
+                maybe = False
                 for k in container:
-                    if isinstance(k, str) and self._maybe_equal_str(item, k):
-                        return self.equal(item, k, node) if len([1 for k2 in container if isinstance(k2, str) and self._maybe_equal_str(item, k2)]) == 1 and not item.has_run() else self.fork("in: %s" % short(node))
-                return False
+                    if not isinstance(k, str):
+                        continue
+                    m = self._match_str(item, k)
+                    if m is True:
+                        return True
+                    if m is None:
+                        maybe = True
+                if not maybe:
+                    return False
+                return self.fork("in: %s" % short(node))
             for k in container:
                 if isinstance(k, (Opaque,)):
                     return self.fork("in: %s" % short(node))
@@ -602,18 +625,43 @@ class Interp:
             return self.fork("in: %s" % short(node))
         raise CannotDecide("membership %r in %r" % (item, container))
 
-    def _maybe_equal_str(self, abss, k):
+    def _match_str(self, abss, k):
+        """True: abss == k for sure; False: never; None: possible."""
         u = abss.units()
-        if any(isinstance(x, Run) or _is_rep(x) for x in u):
-            return True
-        if len(u) != len(k):
+
+        def unit_match(x, c):
+            if isinstance(x, str):
+                return x == c
+            if isinstance(x, Ch):
+                return x.contains_only([c])
+            return None
+        flex = [i for i, x in enumerate(u) if isinstance(x, Run) or _is_rep(x) or not isinstance(x, (str, Ch))]
+        if not flex:
+            if len(u) != len(k):
+                return False
+            res = True
+            for x, c in zip(u, k):
+                m = unit_match(x, c)
+                if m is False:
+                    return False
+                if m is None:
+                    res = None
+            return res
+        pre, post = u[:flex[0]], u[flex[-1] + 1:]
+        fixed = sum(1 for x in u if isinstance(x, (str, Ch)))
+        if fixed > len(k):
             return False
-        for x, c in zip(u, k):
-            if isinstance(x, str) and x != c:
+        for x, c in zip(pre, k):
+            if unit_match(x, c) is False:
                 return False
-            if isinstance(x, Ch) and x.contains_only([c]) is False:
-                return False
-        return True
+        if post:
+            for x, c in zip(reversed(post), reversed(k)):
+                if unit_match(x, c) is False:
+                    return False
+        return None
+
+    def _maybe_equal_str(self, abss, k):
+        return self._match_str(abss, k) is not False
 
     # ---------------------------------------------------------------- subscripts
     def e_Subscript(self, node, frame):
@@ -628,6 +676,8 @@ class Interp:
 
     def index(self, v, idx, node=None):
         idx = simplify_str(idx)
+        if hasattr(v, "a_index"):
+            return v.a_index(self, idx, node)
         if isinstance(v, (list, tuple)):
             if isinstance(idx, int):
                 try:
@@ -694,9 +744,43 @@ class Interp:
             if not any(isinstance(x, Run) or _is_rep(x) for x in u):
                 return simplify_str(AbsStr(u[lo:hi]))
             raise CannotDecide("slice [%r:%r] of %r" % (lo, hi, v))
+        if isinstance(v, AbsStr) and st is None and (isinstance(lo, Lin) or isinstance(hi, Lin)):
+            v = self.norm_str(v)
+            cut_lo = self._cut(v, lo) if lo is not None else 0
+            cut_hi = self._cut(v, hi) if hi is not None else None
+            if cut_lo is not None and (hi is None or cut_hi is not None):
+                u = self._split_units(v)
+                return simplify_str(AbsStr(u[cut_lo:cut_hi]))
+            raise CannotDecide("slice [%r:%r] of %r" % (lo, hi, v))
         if isinstance(v, Opaque):
             return Opaque("slice", [v])
         raise CannotDecide("slice of %r" % (v,))
+
+    def _split_units(self, v):
+        return v.units()
+
+    def _cut(self, v, pos):
+        """Index into v.units() at which the prefix has length ``pos`` (int or Lin), or None."""
+        u = v.units()
+        total = Lin({}, 0)
+        want = Lin.of(pos)
+        for i in range(len(u) + 1):
+            lo, hi = self.lin_interval(want - total)
+            if lo == hi == 0:
+                return i
+            if i == len(u):
+                break
+            a = u[i]
+            if isinstance(a, (str, Ch)):
+                total = total + 1
+            elif isinstance(a, Run):
+                for sy in a.count.values():
+                    total = total + Lin.of(sy)
+            elif _is_rep(a):
+                total = total + a.count.scale(len(a.lit))
+            else:
+                return None
+        return None
 
     # ---------------------------------------------------------------- attributes
     def e_Attribute(self, node, frame):
@@ -892,6 +976,36 @@ class Interp:
             E = recv.excluded
             if all(c.upper() in E and c.lower() in E for c in E):
                 return recv
+        if name == "replace" and len(args) == 2 and isinstance(args[0], str) and isinstance(args[1], str) and args[0]:
+            recv2 = recv if isinstance(recv, AbsStr) else AbsStr([recv])
+            pat = set(args[0])
+            out = []
+            for a in recv2.atoms:
+                if isinstance(a, str):
+                    out.append(a.replace(args[0], args[1]))
+                    continue
+                chars = set()
+                if isinstance(a, Ch):
+                    if a.members is None:
+                        if not pat <= a.excluded:
+                            raise CannotDecide("replace(%r) over %r" % (args[0], a))
+                    else:
+                        chars = set(a.members)
+                elif isinstance(a, Run):
+                    for c in a.classes:
+                        if c.members is None:
+                            if not pat <= c.excluded:
+                                raise CannotDecide("replace(%r) over %r" % (args[0], a))
+                        else:
+                            chars |= set(c.members)
+                elif _is_rep(a):
+                    chars = set(a.lit)
+                else:
+                    raise CannotDecide("replace over %r" % (a,))
+                if chars & pat:
+                    raise CannotDecide("replace(%r) may match inside %r" % (args[0], a))
+                out.append(a)
+            return simplify_str(AbsStr(out))
         if name == "capitalize":
             u = (recv if isinstance(recv, AbsStr) else AbsStr([recv])).units()
             if u and not any(isinstance(x, (Run, Rep)) for x in u):
@@ -1303,6 +1417,8 @@ def _as_absstr(v):
 
 
 def _has_abs(v, _d=0):
+    if hasattr(v, "a_index") or hasattr(v, "a_eq"):
+        return True
     if isinstance(v, (Lin, Opaque, Ch, Run, AbsStr, AObj, AFunc, AClass, AModule, ABuiltin, ABound)):
         return True
     if _d < 4 and isinstance(v, (list, tuple)):
